@@ -3002,7 +3002,7 @@ class Recipe:
             # solvent or the solutes it adds from outside: a solute the solvent container lists with an amount of zero is
             # added from outside)
             moved_by_a_solution_step = (
-                (step.operator == 'solution_from' and substance != step.operands[2]) or
+                step.operator == 'solution_from' or
                 (step.operator == 'solution' and step.frm[0] is not None and
                  step.frm[0].contents.get(substance, 0) > 0))
             if step.operator in ('transfer', 'remove') or moved_by_a_solution_step:
@@ -3014,7 +3014,13 @@ class Recipe:
                 one_object = step.frm[0] is None or step.to[0].name == step.frm[0].name
                 moved_before = held(step.to[0]) + (0 if one_object else held(step.frm[0]))
                 moved_after = held(step.to[1]) + (0 if one_object else held(step.frm[1])) + step.trash.get(substance, 0)
-                noise += abs(moved_after - moved_before) + 1e-15 * (abs(moved_before) + abs(moved_after))
+                imbalance = abs(moved_after - moved_before)
+                if step.operator == 'solution_from' and substance == step.operands[2] and \
+                        imbalance > 2 * 10 ** -config.internal_precision:
+                    # (the solvent of a solution made from a source is added from outside - unless the source's own
+                    # concentration was asked for and none was needed: then it is only moved, like everything else)
+                    imbalance = 0
+                noise += imbalance + 1e-15 * (abs(moved_before) + abs(moved_after))
             # (steps that add material from outside - solvent, solutes - only ever add)
 
         if -noise <= delta < 0:
